@@ -623,6 +623,19 @@ def _theta_x0(draw, n, fam):
             th["l"][i] = draw(st.sampled_from([0.0, 0.0, 0.25, -0.5]))
         if all(c == 0 for c in th["c"]):
             th["c"][0] = 1.0
+        # starts next to the inflection points of the cosines (w x + p = pi/2 + m pi): tiny |H| of either sign along a
+        # gradient of size |c w|, so the first trial steps are huge; with a tilt l the far field differs from the
+        # local slope
+        if draw(st.sampled_from([False, False, True])):
+            j0 = draw(st.integers(3, 12))
+            for i in range(n):
+                if th["c"][i] == 0:
+                    continue
+                m = draw(st.integers(-2, 2))
+                sg = draw(st.sampled_from([-1.0, 1.0]))
+                x0[i] = (float(np.pi) * (m + 0.5) - th["p"][i] + sg * 2.0 ** -(j0 + draw(st.integers(0, 1)))) / th["w"][i]
+                th["a"][i] = 0.0
+                th["l"][i] = draw(st.sampled_from([0.0, 0.125, -0.125, 0.25, -0.5]))
     elif fam == "dwell":
         for i in range(n):
             th["a"][i] = -draw(_dy(0.25, 2, 8))
@@ -712,7 +725,7 @@ def newton_recipes(plain_every=40, kinds=None, free_erf=False):
                  "xtol": draw(st.sampled_from([None, None, 1e-5, 1e-2, 1e-8, 0.25])),
                  "absdelta": draw(st.sampled_from([None, None, 2.0**-20, 2.0**-10, 2.0**-4, 1.0])),
                  "mode": draw(st.sampled_from(["fun", "vag_hessp", "vag_hessp", "fun_jac"])),
-                 "plain": bool(plain_every) and draw(st.sampled_from([True] + [False] * (plain_every - 1)))}
+                 "plain": bool(plain_every) and draw(st.sampled_from([False] * (plain_every - 1) + [True]))}
             # energy_reduction_factor is a Python-level switch: non-default values only where nothing is compiled
             # per value (eager runs, direct calls of the compiled variant)
             if (r["plain"] or free_erf) and draw(st.integers(0, 3)) == 0:
@@ -742,7 +755,7 @@ def _trust_recipes(kinds):
         kind = draw(st.sampled_from(kinds))
         fam = draw(st.sampled_from(FAMS))
         th, x0 = draw(_theta_x0(KINDS[kind], fam))
-        plain = draw(st.sampled_from([True] + [False] * 39))
+        plain = draw(st.sampled_from([False] * 39 + [True]))
         tr = {"gtol": draw(st.sampled_from([None, None, 1e-4, 1e-2, 1e-8])),
               "initial_trust_radius": draw(st.sampled_from([None, None, 0.25, 1.0, 4.0])),
               "max_trust_radius": draw(st.sampled_from([None, None, 8.0, 1000.0])),
